@@ -9,6 +9,7 @@ the CAMx specification puts at that offset.  The Memmap reader's size
 arithmetic is AST-sliced from uamiv/Memmap.py.  Both are compared with the
 reference layout, hence with each other."""
 import z3
+import numpy as np
 
 from verifx import symx, loader
 from verifx.harness import Obligation
@@ -63,6 +64,8 @@ class ReadUamiv(Obligation):
         self.nspec, self.nz, self.T, self.conv = nspec, nz, T, conv
         self.fname = name
         self.name = 'read-uamiv[nspec=%d,nz=%d,T=%d,%s]' % (nspec, nz, T, conv)
+        if name.strip() != 'AVERAGE':
+            self.name = self.name[:-1] + ',%s]' % name.strip()
         self.bounds = {'nspec': nspec, 'nz': nz, 'T': T, 'time units': conv,
                        'cells per layer': 'unbounded'}
         self._space = None
@@ -211,6 +214,99 @@ class ReadUamiv(Obligation):
     any_violation_confirms = True
 
 
+class ReadVarData(ReadUamiv):
+    """the variables of the record reader: every cell of every species
+    variable comes from the data record the layout puts at (step, species,
+    layer), in (TSTEP, LAY, ROW, COL) order, for concrete small grids that
+    include length-1 axes; start date and hour symbolic"""
+    validate_paths = 3
+    stubs = ReadUamiv.stubs + (
+        'FortranFileUtil.read_into (fills the destination with the symbolic '
+        'offset of the record it was positioned on)',)
+
+    def __init__(self, nspec, nz, T, ny, nx, name='AVERAGE   '):
+        ReadUamiv.__init__(self, nspec, nz, T, 'hours', name)
+        self.ny, self.nx = ny, nx
+        self.name = 'read-uamiv-data[nspec=%d,nz=%d,T=%d,ny=%d,nx=%d,%s]' % (
+            nspec, nz, T, ny, nx, name.strip())
+        self.bounds = {'nspec': nspec, 'nz': nz, 'T': T, 'ny': ny, 'nx': nx}
+
+    def space(self):
+        if self._space is None:
+            self._space = loader.TwinSpace(objfloat=True, stubs={
+                'PseudoNetCDF.pncwarn': common.warn_stub(common.WarnRec())})
+            ffu = self._space.twin('PseudoNetCDF.camxfiles.FortranFileUtil')
+            ffu.unpack_from_file = lambda fmt, f: f.model_unpack(fmt)
+
+            def read_into(rf, dest, id_fmt, data_fmt='f'):
+                dest[...] = rf.record_start
+                return None
+            ffu.read_into = read_into
+            rd = self._space.twin('PseudoNetCDF.camxfiles.uamiv.Read')
+            if 'read_into' in rd.__dict__:
+                rd.read_into = read_into
+        return self._space
+
+    def _layout(self, ctx):
+        date0 = ctx.int('date0', 1001, 99300)
+        h0 = ctx.int('h0', 0, 23)
+        ctx.assume(date0.e % 1000 >= 1, check=False)
+        ctx.assume(date0.e % 1000 <= 300, check=False)
+        return layouts.UamivLayout(self.nspec, self.nz, self.T,
+                                   self.nx * self.ny, self.nx, self.ny,
+                                   date0, h0, 1, 24, self.fname)
+
+    def sym(self, ctx, h):
+        sp = self.space()
+        Read = sp.twin('PseudoNetCDF.camxfiles.uamiv.Read')
+        lay = self._layout(ctx)
+        f = layouts.SymFile(ctx, lay)
+        import sys
+        sys.setprofile(sp.profile())
+        try:
+            try:
+                rd = Read.uamiv(f)
+            except Exception as ex:
+                h.candidate('open-raised:' + type(ex).__name__,
+                            repr(ex)[:200])
+                return
+            h.claim('dimensions', z3.BoolVal(
+                (len(rd.dimensions['TSTEP']), len(rd.dimensions['LAY']),
+                 len(rd.dimensions['ROW']), len(rd.dimensions['COL'])) ==
+                (self.T, self.nz, self.ny, self.nx)))
+            for si, sn in enumerate(lay.spcnames):
+                lab = 'var[%d]' % si
+                try:
+                    v = rd.variables[sn.strip()]
+                except Exception as ex:
+                    h.candidate(lab + ':raised:' + type(ex).__name__,
+                                repr(ex)[:160])
+                    continue
+                shape = tuple(v.shape)
+                h.claim(lab + ':shape', z3.BoolVal(
+                    shape == (self.T, self.nz, self.ny, self.nx)))
+                if shape != (self.T, self.nz, self.ny, self.nx):
+                    continue
+                arr = np.asarray(v)
+                for ti in range(self.T):
+                    for k in range(self.nz):
+                        cells = [symx._b(arr[ti, k, j, i] ==
+                                         lay.data_record(ti, si, k + 1))
+                                 for j in range(self.ny)
+                                 for i in range(self.nx)]
+                        h.claim(lab + ':from-record[t=%d,k=%d]' % (ti, k + 1),
+                                z3.And(*cells))
+            h.observe('T', rd.time_step_count)
+        finally:
+            sys.setprofile(None)
+
+    def real(self, inputs):
+        inputs = dict(inputs)
+        inputs.update({'nx': self.nx, 'ny': self.ny,
+                       'cells': self.nx * self.ny})
+        return ReadUamiv.real(self, inputs)
+
+
 def obligations(tier):
     obs = []
     Ts = (1, 2, 3) if tier == 'quick' else (1, 2, 3, 4, 5)
@@ -221,4 +317,16 @@ def obligations(tier):
                     if tier == 'quick' and nspec == 2 and nz == 2 and T == 3:
                         continue
                     obs.append(ReadUamiv(nspec, nz, T, conv))
+    # the other file kinds sharing the layout (header name field)
+    for name, nspec, nz, T in (('EMISSIONS', 2, 1, 2), ('EMISSIONS', 1, 2, 2)):
+        obs.append(ReadUamiv(nspec, nz, T, 'hours', name.ljust(10)))
+    # variable contents, grids with and without length-1 axes
+    grids = [(2, 2, 2, 2, 3), (1, 1, 1, 1, 1), (1, 2, 1, 1, 2),
+             (2, 1, 2, 3, 1)]
+    if tier == 'thorough':
+        grids += [(2, 2, 3, 2, 2), (3, 1, 1, 2, 2), (1, 3, 2, 1, 1),
+                  (1, 1, 4, 1, 1)]
+    for name in ('AVERAGE', 'EMISSIONS'):
+        for g in grids:
+            obs.append(ReadVarData(*g, name=name.ljust(10)))
     return obs
